@@ -646,7 +646,6 @@ SEED_OPS = [
     ("escaped_method", "a.\\u0073ubstring(1)"), ("escaped_method_opt", "a?.\\u{74}rim()"), ("proto_mid_path", "K.prototype.name.trim() + o.prototype.x?.trim()"),
     ("same_path_twice", "o.x + o.x"), ("same_path_call", "o.x.concat(o.x, o.x)"), ("tpl_no_subst", "`use strict` + a"),
     ("lit_plus_undefined", "'a' + undefined + c"), ("plus_undefined", "'Hello ' + undefined"), ("tpl_undefined", "`${'a' + undefined}${c}`"),
-    ("long_chain", "a" + " + b" * 150), ("long_chain_calls", " + ".join("f(%d)" % i for i in range(140))),
     ("proto_call_nested", "String.prototype.concat.call(a.trim(), b.trim())"), ("proto_apply_nested", "String.prototype.concat.apply(a.trim(), [b.trim(), c + d])"),
     ("pluseq_paren", "(a) += b"), ("pluseq_paren_member", "(o.x) += f()"), ("pluseq_super", "super.x += b"), ("pluseq_super_computed", "super[k] += `t${a}`"),
     ("pluseq_this", "this.x += a"), ("pluseq_private", "this.#p += a"),
@@ -655,6 +654,10 @@ SEED_OPS = [
     ("tpl_marker_line", "a + `\n//# sourceMappingURL=${b}`"), ("str_marker_line", "a.concat('\\\n//# sourceMappingURL=x.map')"),
     ("tpl_nonascii_escape", "`\u00ab\\x60${a}\\x60\u00bb\\x24{b}\\x5c`"), ("str_nonascii", "a + '\u00e9\\x27\u2028' + b"),
 ]
+
+# operand chains longer than any plausible depth limit (run in a few contexts only: they are expensive to judge)
+LONG_OPS = [("long_chain", "a" + " + b" * 150), ("long_chain_calls", " + ".join("f(%d)" % i for i in range(140))),
+            ("long_concat_calls", "a" + ".concat(b)" * 140)]
 
 CONTEXTS = [
     ("top", "%s;"), ("top_decl", "const v = %s;"), ("block", "{ %s; }"), ("fn_body", "function m() { %s; }"),
